@@ -83,9 +83,9 @@ def class_check(uv, N, W, acc):
         for r in range(N):
             for c in range(r if b == 0 else 0, N):
                 acc.n += 1
-                comp = list(uv.locations_compressed(b, r, c, N, W))
+                comp = [int(x) for x in uv.locations_compressed(b, r, c, N, W)]
                 rows, cols = uv.locations_index_slices(b, r, c, N, W)
-                rows, cols = list(rows), list(cols)
+                rows, cols = [int(x) for x in rows], [int(x) for x in cols]      # plain ints: no dtype arithmetic in the oracle
                 pos = list(zip(rows, cols))
                 if len(pos) != W - b or len(set(pos)) != len(pos):
                     acc.fail(case, f"class ({b},{r},{c}) holds {len(pos)} positions "
